@@ -394,11 +394,12 @@ class WProc(ScriptedMixin, Process):
 
     def _script_update(self, k, timestep, states):
         # the update object handed out last time must not have been modified
-        if self._last is not None and REC.active:
-            obj, cp = self._last
+        if self._last and REC.active:
             from dst.wmodel import values_equal
-            if not values_equal(log_copy(obj), cp):
-                REC.ev('MUTATED', uid=self._uid(), n=k - 1, before=cp, after=log_copy(obj))
+            for back, (obj, cp) in enumerate(reversed(self._last), 1):
+                if not values_equal(log_copy(obj), cp):
+                    REC.ev('MUTATED', uid=self._uid(), n=k - back, before=cp, after=log_copy(obj))
+                    break
         up = {}
         for w in self.spec.get('writes', []):
             mask = w.get('mask') or [1]
@@ -434,7 +435,9 @@ class WProc(ScriptedMixin, Process):
 
     def next_update(self, timestep, states):
         update = ScriptedMixin.next_update(self, timestep, states)
-        self._last = (update, log_copy(update))
+        # (the last three: an update object that was put into the state by reference is
+        # only modified when a later update is applied)
+        self._last = ((self._last or []) + [(update, log_copy(update))])[-3:]
         return update
 
 
@@ -821,6 +824,8 @@ class Holder(ScriptedMixin, Process):
         for port, vars_ in s['ports'].items():
             schema[port] = {v: {'_default': decode_value(copy.deepcopy(d)), '_emit': True}
                             for v, d in vars_.items()}
+            if s.get('deep_env') and port == 'env':
+                schema[port] = {'sub': schema[port]}
         return schema
 
     def _script_update(self, k, timestep, states):
